@@ -5,11 +5,12 @@
 P=$1; V=$2; WT=/tmp/wt-$P; D=/tmp/adv-$P/$V
 cd $WT || exit 2
 export CARGO_NET_OFFLINE=true
-git checkout -q -- . ; rm -f dropshot/tests/demo_variant_*.rs
+git checkout -q -- . ; rm -f dropshot/tests/demo_*variant_*.rs
 demo_files=$(cd $D/demo && find . -type f -name '*.rs')
 put_demo() { for f in $demo_files; do b=$(basename $f); cp $D/demo/$f dropshot/tests/$b; done; }
 rm_demo() { for f in $demo_files; do rm -f dropshot/tests/$(basename $f); done; }
 lc=$(echo $V | tr A-Z a-z)
+tname=$(basename $(echo $demo_files | cut -d" " -f1) .rs)
 git apply $D/patch.diff || { echo "{\"applies\": false}" > $D/confirm.json; exit 1; }
 # a few example-based tests bind fixed TCP ports and collide when several suites run on this machine at
 # once: retry the whole suite (unchanged) up to 4 times and accept only a fully green run
@@ -21,10 +22,10 @@ for attempt in 1 2 3 4; do
 done
 suite_line=$(grep -E "tests run:" $D/suite.log | tail -1)
 put_demo
-cargo nextest run -p dropshot --test demo_variant_$lc --no-fail-fast --offline > $D/demo_with.log 2>&1
+cargo nextest run -p dropshot --test $tname --no-fail-fast --offline > $D/demo_with.log 2>&1
 with_rc=$?
 git checkout -q -- .
-cargo nextest run -p dropshot --test demo_variant_$lc --no-fail-fast --offline > $D/demo_without.log 2>&1
+cargo nextest run -p dropshot --test $tname --no-fail-fast --offline > $D/demo_without.log 2>&1
 without_rc=$?
 rm_demo
 python3 - "$D" "$suite_rc" "$with_rc" "$without_rc" "$suite_line" <<'PY'
